@@ -117,6 +117,19 @@ def priorities(qartod):
     inner = [l for l in loops if isinstance(l.iter, ast.Name) and l.iter.id == "vectors"]
     need(len(outer) == 1 and len(inner) == 1 and inner[0] in outer[0].body,
          "qartod_compare: expected `for p in priorities: for v in vectors:`")
+    # ... and the inner body must be `idx = np.where(v == p)[0]; result[idx] = p` (nothing else)
+    pv, vv = outer[0].target, inner[0].target
+    need(isinstance(pv, ast.Name) and isinstance(vv, ast.Name) and len(outer[0].body) == 1 and len(inner[0].body) == 2
+         and not outer[0].orelse and not inner[0].orelse, "qartod_compare: unexpected loop bodies")
+    a1, a2 = inner[0].body
+    need(isinstance(a1, ast.Assign) and len(a1.targets) == 1 and isinstance(a1.targets[0], ast.Name)
+         and ast.dump(a1.value) == ast.dump(ast.parse(f"np.where({vv.id} == {pv.id})[0]", mode="eval").body),
+         "qartod_compare: expected `idx = np.where(v == p)[0]`")
+    need(isinstance(a2, ast.Assign) and len(a2.targets) == 1 and isinstance(a2.targets[0], ast.Subscript)
+         and isinstance(a2.targets[0].value, ast.Name) and a2.targets[0].value.id == "result"
+         and isinstance(a2.targets[0].slice, ast.Name) and a2.targets[0].slice.id == a1.targets[0].id
+         and isinstance(a2.value, ast.Name) and a2.value.id == pv.id,
+         "qartod_compare: expected `result[idx] = p`")
     fills = [n for n in ast.walk(fn) if isinstance(n, ast.Call) and isinstance(n.func, ast.Attribute)
              and n.func.attr == "fill"]
     need(len(fills) == 1 and len(fills[0].args) == 1, "qartod_compare: expected one result.fill(...)")
@@ -270,6 +283,19 @@ def skeleton_stmts(stmts_in, no_inline=False):
     inline = {}
     opaque = [0]
     closures = {}          # local functions that assign flags: name -> FunctionDef
+    idx_alias = {}         # flag_idx = np.where(<cond>)[0] (+ 1): name -> (cond, shift)
+
+    def where_index(node):
+        """np.where(<cond>)[0] -> (cond, 0);  np.where(<cond>)[0] + 1 -> (cond, 1);  else None"""
+        shift = 0
+        if isinstance(node, ast.BinOp) and isinstance(node.op, ast.Add) and isinstance(node.right, ast.Constant) \
+                and node.right.value == 1:
+            node, shift = node.left, 1
+        if isinstance(node, ast.Subscript) and isinstance(node.slice, ast.Constant) and node.slice.value == 0 \
+                and isinstance(node.value, ast.Call) and _call_name(node.value) == "where" \
+                and len(node.value.args) == 1 and not node.value.keywords:
+            return node.value.args[0], shift
+        return None
     inlined_calls = [0]
 
     def inline_closure(call, guards):
@@ -319,7 +345,11 @@ def skeleton_stmts(stmts_in, no_inline=False):
                         and is_flag_value(st.value):
                     g = "[" + "; ".join(guards) + "]"
                     sl = tg.slice
-                    if isinstance(sl, ast.Constant) and isinstance(sl.value, int):
+                    if isinstance(sl, ast.Name) and sl.id in idx_alias:
+                        cond, shift = idx_alias[sl.id]                 # flags[np.where(c)[0] + 1] = F
+                        steps.append(f"SWhereSl {g} true {sexp(cond, inline)} {st.value.attr}" if shift
+                                     else f"SWhere {g} {sexp(cond, inline)} {st.value.attr}")
+                    elif isinstance(sl, ast.Constant) and isinstance(sl.value, int):
                         steps.append(f"SAt {g} {coq_z(sl.value)} {st.value.attr}")
                     elif isinstance(sl, ast.UnaryOp) and isinstance(sl.op, ast.USub) and isinstance(sl.operand, ast.Constant):
                         steps.append(f"SAt {g} {coq_z(-sl.operand.value)} {st.value.attr}")
@@ -331,9 +361,13 @@ def skeleton_stmts(stmts_in, no_inline=False):
                     need(isinstance(tg.value.slice, ast.Slice), f"skeleton: unsupported flag view, line {st.lineno}")
                     g = "[" + "; ".join(guards) + "]"
                     steps.append(f"SWhereSl {g} {slice_kind(tg.value.slice)} {sexp(tg.slice, inline)} {st.value.attr}")
+                elif isinstance(tg, ast.Name) and where_index(st.value) is not None:
+                    idx_alias[tg.id] = where_index(st.value)
                 elif not no_inline and isinstance(tg, ast.Name) and isinstance(st.value, (ast.Compare, ast.BinOp)) \
                         and (isinstance(st.value, ast.Compare) or isinstance(st.value.op, (ast.BitOr, ast.BitAnd))):
                     inline[tg.id] = st.value          # mloc = lon.mask & lat.mask
+                elif isinstance(tg, ast.Name) and tg.id in idx_alias:
+                    raise TranslateError(f"skeleton: index array {tg.id} reassigned, line {st.lineno}")
             elif isinstance(st, ast.If):
                 t = sexp(st.test, inline) if _translatable(st.test, inline) else None
                 leaves = bool(st.body) and isinstance(st.body[-1], (ast.Return, ast.Continue, ast.Break)) and not st.orelse
@@ -697,7 +731,7 @@ def generate(repo):
     for mn, name in [("qartod", "gross_range_test"), ("qartod", "spike_test"), ("qartod", "rate_of_change_test"),
                      ("qartod", "location_test"), ("qartod", "attenuated_signal_test"),
                      ("argo", "speed_test"), ("axds", "valid_range_test"), ("qartod", "density_inversion_test"),
-                     ("qartod", "flat_line_test")]:
+                     ("qartod", "flat_line_test"), ("argo", "pressure_increasing_test")]:
         def _skel(mn=mn, name=name):
             st = skeleton(fn_of(mods[mn], name))
             need(st, f"skeleton of {name} is empty")
